@@ -1,6 +1,6 @@
 //! C15 — binary application payloads are passed through bit-exactly.
 
-use crate::adapter::{Config, STD};
+use crate::adapter::{configs, Config, STD};
 use crate::engine::{Ctx, Input, Rec, Verdict};
 use crate::gen::payload::{payload_inputs, LenMode};
 use crate::props::payload::check_input;
@@ -22,7 +22,7 @@ pub fn check(_sub: &str, cfg: &'static dyn Config, input: &Input, rec: &mut Rec)
 
 pub fn run(ctx: &mut Ctx) {
     ctx.rule = "types 6, 8 and 17 at every payload byte length from the bare header to the protocol maximum (and a few beyond) with random header values and contents, directly and through armouring with every fill count; data must equal the bytes after the 11 / 7 / 15 header bytes exactly (length and content), and DAC, FID and the DGNSS header integers must equal the bits at their positions. Non-trivial = at least one data byte; distinct by payload bytes.".into();
-    ctx.assumptions = vec!["std build only; more than 119 data bytes in the no-allocator build is C18's".into()];
+    ctx.assumptions = vec!["all three builds; more than 119 data bytes is excluded in the no-allocator build (C18 decides those)".into()];
     ctx.replay_regressions(check);
     let mut mix = Mix::new(ctx.seed, 15);
     let reps = ctx.tier.pick(12, 400);
@@ -40,7 +40,10 @@ pub fn run(ctx: &mut Ctx) {
                 if ctx.sub_failed("every-length") {
                     return;
                 }
-                ctx.sweep_case("every-length", &STD, &Input::Payload { bytes: b }, check);
+                let input = Input::Payload { bytes: b };
+                for cfg in configs() {
+                    ctx.sweep_case("every-length", cfg, &input, check);
+                }
             }
         }
     }
@@ -58,7 +61,10 @@ pub fn run(ctx: &mut Ctx) {
                     if ctx.sub_failed("every-char-length-and-fill") {
                         return;
                     }
-                    ctx.sweep_case("every-char-length-and-fill", &STD, &Input::SentPayload { chars, fill, cuts: vec![] }, check);
+                    let input = Input::SentPayload { chars, fill, cuts: vec![] };
+                    for cfg in configs() {
+                        ctx.sweep_case("every-char-length-and-fill", cfg, &input, check);
+                    }
                 }
             }
         }
